@@ -47,6 +47,14 @@ CHECKS["C11"] = dict(
     technique="relational (twin-run) bounded symbolic execution of the real analyses + z3 equality obligations; replay on real code",
     ref="5/C11")
 
+CHECKS["C02"] = dict(
+    text="The real _integrate_forces_and_moments and distributions run on arbitrary symbolic pre-states (all section arrays, circulation, local velocities, attitude, velocity, wind, "
+         "reference quantities are fresh symbols; section coefficients uninterpreted) for the lattice of solver and output options; z3 decides every entry of the result dictionary "
+         "against a reference model of the load integral (cut points at the per-section load arrays, then bookkeeping on named arrays), per-section sums and exact key sets. N<=8 sections, <=2 aircraft.",
+    note="Section coefficient values are taken as evaluated by the code (C16); reals not floats; unit quaternions; cut definitions used as facts.",
+    technique="bounded symbolic execution of the real kernel on arbitrary pre-states with cut points + z3 (4.8.12 first) vs reference model; replay on real code",
+    ref="5/C02")
+
 NOT_APPLICABLE = {
     "C18": "classical lifting-line limits: a convergence statement about the N>=20 discrete solution (value and rate under grid refinement); no bounded SMT encoding of the 40x40 transcendental system is within reach and the small N the engine handles is where the claim is not expected to hold",
 }
